@@ -20,7 +20,7 @@ PROPS = {
                 technique='Verus contracts on mechanically extracted writer functions',
                 text='byte-exact layout contract of the writer functions (Verus).',
                 note='std fmt/itoa shims trusted'),
-    'C14': dict(level='proof', steps=[V('writer')],
+    'C14': dict(level='proof', steps=[V('writer'), E3('c14-content')],
                 title='Content streams survive encode and decode',
                 technique='Verus contracts on mechanically extracted writer functions',
                 text='encoder side under contract (Verus).',
